@@ -27,6 +27,7 @@
 (* Part 5  is_canonical_serialization and the trusted length as machines   *)
 (* Part 6  the property-level characterisations                            *)
 (* Part 7  symbolic inputs  prefix ++ fill^n  for atoms TLC cannot hold    *)
+(* Part 8  memory a decoder may ask for (C16 "without over-allocating")    *)
 (***************************************************************************)
 EXTENDS BigInt, Prim
 
@@ -428,4 +429,33 @@ SymCanonical(P, have, fill) ==
   IN  /\ d.ok
       /\ d.size = have
       /\ LET ap == AtomPrefix(d.size, fill) IN ap.ok /\ ap.bytes = P
+---------------------------------------------------------------------------
+(* Part 8.  C16 "without over-allocating".  What a classic decoder keeps on   *)
+(* the heap is proportional to what it has read: per node a value-stack or    *)
+(* result entry (parse_triples: a 24-byte triple and a 32-byte hash;           *)
+(* tree_hash_from_stream: a 32-byte hash; node_from_stream: 4-byte NodePtr,    *)
+(* 8-byte pair, 8-byte atom descriptor), per operator-stack entry at most 16   *)
+(* bytes, per atom byte one byte in the Allocator's heap; every one of these   *)
+(* lives in a Vec that grows by doubling (capacity <= 2 x length) and whose    *)
+(* old block lives until the new one is filled (+ 1 x): at most               *)
+(* 3 x (24 + 32) = 168 bytes per node.  Nodes read <= bytes read.  Nothing is   *)
+(* ever sized from a length prefix before the bytes have been seen.  Hence     *)
+(* neither a single request nor the peak of additional live bytes exceeds      *)
+(*     MemC * (input length + node count) + MemK                               *)
+(* where node count = nodes of the result, or the input length when the input  *)
+(* is refused (nodes parsed before the refusal).  MemK covers the first,       *)
+(* minimum-capacity blocks of the Vecs.  Measured on the unchanged code:       *)
+(* slope <= 75 bytes per input byte (parse_triples with hashes).               *)
+(* serialized_length_from_bytes creates its own Allocator, which reserves      *)
+(* 1 MiB + 2 x 256 x 8 bytes when created (Allocator::new_limited); the other   *)
+(* calls are measured from after their Allocator exists.                      *)
+MemC == 128
+MemK == 4096
+AllocatorReserve == 1048576 + 2048 + 2048
+MemBound(len, nodes) == MemC * (len + nodes) + MemK
+RECURSIVE NodeCount(_)
+NodeCount(n) == IF SIsAtom(n) THEN 1 ELSE 1 + NodeCount(n.f) + NodeCount(n.r)
+\* d = DResult of the decode machine on b
+MemBoundFor(b, d) == MemBound(Len(b), IF d.ok THEN NodeCount(d.node) ELSE Len(b))
+MemOk(mem, bound) == mem.req <= bound /\ mem.peak <= bound
 =============================================================================
